@@ -88,7 +88,7 @@ def run_impl_sessions(sessions, procs=None, op_timeout=20.0, retry_timeouts=True
     if not sessions:
         return []
     procs = procs or min(16, max(1, os.cpu_count() or 1), len(sessions))
-    if procs <= 1 or len(sessions) < 8:
+    if procs <= 1 or len(sessions) < 8 or os.environ.get("VERIF_COVERAGE"):
         res = [_run_one((ops, op_timeout)) for ops in sessions]
     else:
         with mp.get_context("fork").Pool(procs) as pool:
